@@ -148,4 +148,23 @@ def run(ctx):
                             good = i.get("callee") in ("serde_core::de::MapAccess::next_key", "serde_core::de::SeqAccess::next_element", "serde_core::de::MapAccess::next_entry")
                 ctx.oblige("C04|loop|%s" % fn["path"], good, "a loop in %s is not an input-consuming `while let Some(_) = next_key()/next_element()?` loop: termination is not evident" % fn["path"], cfg=cfg, where=H.line(x))
         ctx.floor("input-consuming loops", n_loops, 15, cfg=cfg)
+        # every other public decodable type (responses, options, enums ... decoded with cbor_deserialize::<T>): their
+        # Deserialize / Visitor bodies (generic in the deserializer, hence no mono root) contain no panic-capable construct at all
+        n_de = 0
+        for f in F.fns:
+            im = f.get("impl") or {}
+            if im.get("trait") in ("serde_core::de::Deserialize", "serde_core::de::Visitor", "serde_core::de::DeserializeSeed"):
+                n_de += 1
+                for kind, x in c13.obligations(f):
+                    if kind == "diverge":
+                        continue
+                    # compiler-generated lowering of format_args! (an `unsafe { Arguments::new(..) }` block, sound by construction)
+                    if "bang:format_args" in (x.get("pv") or "") and (kind == "unsafe" or x.get("callee", "").startswith("core::fmt::Arguments")):
+                        continue
+                    ctx.oblige("C04|decoder-body|%s|%s" % (f["path"][:110], kind), False,
+                               "panic-capable construct (%s) in the decoder body %s" % (kind, f["path"][:140]), cfg=cfg, where=H.line(x))
+        ctx.floor("Deserialize / Visitor bodies scanned", n_de, 140, cfg=cfg)
+        if ctx.tier == "thorough" and cfg == "k7":
+            from .clippyxref import cross_reference
+            cross_reference(ctx, [ev.get("sp") for _, ev, _ in obs], files=["src/webauthn.rs", "src/ctap2.rs", "src/operation.rs"])
         ctx.extra.setdefault("reachable", {})[cfg] = {"instances": len(R.seen), "repo_instances": len(R.local), "hand_written": n_user, "obligations": len(obs)}
